@@ -660,6 +660,11 @@ func (ic *Context) AddNotification(hash util.Uint160, name string, item *stackit
 			return fmt.Errorf("notification count shouldn't exceed %d", MaxNotificationCount)
 		}
 	}
+	// Emitted event is available to contracts via System.Runtime.GetNotifications,
+	// it must not be changed after that (native contracts pass mutable items here).
+	if !item.IsReadOnly() {
+		item = stackitem.DeepCopy(item, true).(*stackitem.Array)
+	}
 	ic.Notifications = append(ic.Notifications, state.NotificationEvent{
 		ScriptHash: hash,
 		Name:       name,
